@@ -64,7 +64,7 @@ Definition bid_keys_unique (s : state) : Prop :=
   NoDup (map (fun b => (b_auction b, b_id b)) (st_bids s)).
 
 Definition round_bounded (a : auction) : Prop :=
-  (1 <= length (a_ends a) <= N.to_nat (a_max_round a) + 1)%nat /\ (a_max_round a <= 30)%N.
+  (1 <= length (a_ends a) <= N.to_nat (a_max_round a) + 1)%nat /\ (a_max_round a <= MaxExtendedRound)%N.
 Definition bounded (s : state) : Prop := Forall round_bounded (st_auctions s).
 
 (* is the last instalment of a vesting queue due and unreleased at time t *)
